@@ -181,6 +181,14 @@ class SimTransport:
                 self.producerPaused = True
                 end.net.sim.note("transport_pause")
                 self.producer.pauseProducing()
+                # transport variant (off by default): the data is taken off
+                # the transport's hands at once, so the drain signal arrives
+                # while the caller is still inside write()
+                hook = end.net.sync_drain
+                if hook is not None and self.producerPaused and \
+                        self.producer is not None and hook(end):
+                    end.net.sim.note("fault.sync_drain")
+                    end.net.flush_end(end)
 
     def writeSequence(self, iovec):
         for d in iovec:
@@ -395,6 +403,7 @@ class Net:
         # being delivered between loseConnection() and connectionLost. Kernel
         # TCP under Twisted stops reading at once (default)
         self.read_after_lose = False
+        self.sync_drain = None      # callable(end) -> bool, see SimTransport.write
         self.window = 1 << 30       # max bytes in flight per direction
         self.autoflush = True
         self.mode_for_port = {}     # port -> "message" for websocket stubs
